@@ -45,13 +45,17 @@ namespace impl {
 			if(!tags) tags=&tmp_triggers;
 			
 			if(l1_->fetch(key,a,tags,timeout_out,gen)) {
-				int res = tcp()->fetch(key,*a,tags,*timeout_out,*gen,true);
+				// a newer value comes with its own triggers, they must not be mixed
+				// with the triggers of the local copy it replaces
+				std::set<std::string> updated_triggers;
+				int res = tcp()->fetch(key,*a,&updated_triggers,*timeout_out,*gen,true);
 				if(res==tcp_cache::up_to_date)
 					return true;
 				if(res==tcp_cache::not_found) {
 					l1_->remove(key);
 					return false;
 				}
+				tags->swap(updated_triggers);
 				l1_->store(key,*a,*tags,*timeout_out,gen);
 				return true;
 			}
